@@ -306,7 +306,9 @@ pub fn run(args: &Args) -> i32 {
         return report.finish();
     }
 
-    let bfs_depth: usize = std::env::var("VERIF_C04_BFS").ok().and_then(|s| s.parse().ok()).unwrap_or(args.tier.pick(4, 6));
+    // worker processes run only part (b); the BFS of part (a) runs in the parent
+    let is_worker = engine::child_ctl(args).is_some();
+    let bfs_depth: usize = if is_worker { 0 } else { std::env::var("VERIF_C04_BFS").ok().and_then(|s| s.parse().ok()).unwrap_or(args.tier.pick(4, 6)) };
     let lock_depth: usize = std::env::var("VERIF_C04_LOCK").ok().and_then(|s| s.parse().ok()).unwrap_or(args.tier.pick(3, 4));
 
     // ---- (a) BFS with exact deduplication on Storage<MemoryStorage>
@@ -401,26 +403,35 @@ pub fn run(args: &Args) -> i32 {
             items.push((b, *a));
         }
     }
-    engine::par_for(items.len(), args.seed, |_w, i| {
+    let scratch = Scratch::new("c04");
+    let base_transitions = ctx.transitions.load(Ordering::SeqCst);
+    let base_rejected = ctx.rejected.load(Ordering::SeqCst);
+    let counts = |r: &Report| {
+        r.set("transitions", json!(ctx.transitions.load(Ordering::SeqCst) - base_transitions));
+        r.set("traces_validated_against_impl", json!(sequences.load(Ordering::SeqCst) * 3));
+        r.set("lockstep_sequences", json!(sequences.load(Ordering::SeqCst)));
+        r.set("ops_rejected_as_expected", json!(ctx.rejected.load(Ordering::SeqCst) - base_rejected));
+    };
+    let run_item = |i: usize| {
         let (base, first) = items[i];
-        let scratch = Scratch::new("c04");
         let mut seq = vec![first];
         lock_dfs(&ctx, base, &mut seq, lock_depth, &alpha, &scratch, &sequences);
-    });
-
+    };
+    if engine::run_items_isolated(args, &report, items.len(), &run_item, &counts, &|i| ("lockstep-prefix".to_string(), format!("sequences starting with {:?} from {:?}", items[i].1, items[i].0), replay_json(items[i].0, &[items[i].1], "file"))) {
+        return 0;
+    }
     report.set("states", json!(total_states));
-    report.set("transitions", json!(ctx.transitions.load(Ordering::SeqCst)));
-    report.set("traces_validated_against_impl", json!(sequences.load(Ordering::SeqCst) * 3 + total_states));
+    report.add("transitions", base_transitions);
+    report.add("traces_validated_against_impl", total_states);
+    report.add("ops_rejected_as_expected", base_rejected);
     report.set("exhaustive", json!(!capped));
     report.set("bfs_memory_cap_hit", json!(capped));
     report.set("bfs_depth", json!(bfs_depth));
     report.set("bfs_states_per_depth", json!(states_per_depth));
     report.set("bfs_transitions", json!(bfs_transitions));
     report.set("lockstep_depth", json!(lock_depth));
-    report.set("lockstep_sequences", json!(sequences.load(Ordering::SeqCst)));
     report.set("backends", json!(["memory", "file", "mapped"]));
     report.set("alphabet_size", json!(alpha.len()));
-    report.set("ops_rejected_as_expected", json!(ctx.rejected.load(Ordering::SeqCst)));
     report.set("rule", json!("(a) breadth-first search over Storage<MemoryStorage> from 3 base states, every operation of the alphabet at every state, visited set keyed by a 128-bit hash of the complete state (raw bytes + in-memory record table incl. free lists); (b) every sequence of <= lockstep_depth operations executed from scratch on memory, file and memory-mapped back-ends. After every operation every index is compared with the reference model."));
     report.assume("written bytes are a function of (state, operation) so that equal states have equal futures; values and sizes outside the alphabet are not covered");
     report.finish()
